@@ -65,7 +65,7 @@ def _c14_extra(tier, seed):
     return enumerate_all(tier, seed)
 
 
-_p("C14", modules=["cipher_suites", "record_protection", "quic_session_c"], level="proof", extra=[_c14_extra],
+_p("C14", modules=["cipher_suites", "record_protection", "quic_session_c", "keys"], level="proof", extra=[_c14_extra],
    technique="proof by exhaustion: the real split_cipher_suite evaluated on all 65 536 code points against a frozen IANA registry + independent name parser; KeyError path by VC",
    level_text="The domain is finite (2-byte code points): the real function is evaluated on all 65 536 inputs and every accepted code point must be the "
               "IANA-registered code point of its name with bulk cipher, key length, mode/AEAD-ness, tag length and hash equal to what an independent token "
